@@ -1,5 +1,8 @@
 import SwimVerif.Driver
 import SwimVerif.Model.CommandOutput
+import SwimVerif.Model.SupplyLane
+import SwimVerif.Model.ReadFeed
+import SwimVerif.Model.CommandLane
 
 namespace SwimVerif.Machines.C14
 open SwimVerif
@@ -13,6 +16,33 @@ def cmd : Machine where
   minit := {}
   mstep := fun m line out => m.step line out
 
-def machines : List (String × Machine) := [("cmd", cmd)]
+/-- The agent-side supply lane (`SupplyLane`: `push`, `sync`, `write_to_buffer`). -/
+def sup : Machine where
+  σ := Sup.St Nat
+  init := {}
+  step := Sup.stepLine
+  μ := Sup.Mon
+  minit := {}
+  mstep := fun m line out => m.step line out
+
+/-- The runtime's read task feeding command envelopes to lane senders (`read_task`, `LaneSender`). -/
+def rf : Machine where
+  σ := RF.Sys
+  init := {}
+  step := RF.stepLine
+  μ := RF.Mon
+  minit := {}
+  mstep := fun m line out => m.step line out
+
+/-- The agent task serving a command lane and a supply lane (`CommandLane`, `DoCommand`, `on_command`, `dirty_items`). -/
+def cl : Machine where
+  σ := CL.Sys
+  init := {}
+  step := CL.stepLine
+  μ := CL.Mon
+  minit := {}
+  mstep := fun m line out => m.step line out
+
+def machines : List (String × Machine) := [("cmd", cmd), ("sup", sup), ("rf", rf), ("cl", cl)]
 
 end SwimVerif.Machines.C14
